@@ -122,8 +122,9 @@ def decode_gcs(key, gcs):
 class CompactFilter:
     def __init__(self, key, hashes):
         self.key = key
+        # N counts every element of the filter, duplicates included (BIP158)
+        self.f = len(hashes) * GOLOMB_M
         self.hashes = set(hashes)
-        self.f = len(self.hashes) * GOLOMB_M
 
     def __repr__(self):
         result = f"{self.key.hex()}:\n\n"
@@ -138,7 +139,7 @@ class CompactFilter:
 
     @classmethod
     def parse(cls, key, filter_bytes):
-        return cls(key, set(decode_gcs(key, filter_bytes)))
+        return cls(key, decode_gcs(key, filter_bytes))
 
     def hash(self):
         return hash256(self.serialize())
